@@ -216,6 +216,14 @@ theorem lifecycle_ok (max mw : Nat) (script : List Outcome) (batches : List (Lis
       | false => exact ⟨h4 hs, rfl⟩)
   exact this.2.1.1
 
+/-- when the spawn returns, the acceptor is fine and the actor has either handled Started (alive) or
+    has handled its final Stopped with the inbox closed — for every budget, chain, crash script and
+    any sufficient fuel. -/
+theorem spawn_post (f max mw : Nat) (script : List Outcome) (hf : 3 * script.length + 2 ≤ f) :
+    LQ script.length (spawn f max mw script).1 := by
+  unfold spawn
+  exact ((lTriple script.length).sound f _).1 (by simp [LS, LBase, lcRun]; omega)
+
 /-! ### C06: after the budget is exhausted -/
 
 theorem afterMaxOK_append (pre suf : List Ev) (h : Ev.ev .maxRestarts ∉ pre) :
